@@ -299,6 +299,9 @@ class TypedNode(Node):
             # If creating an inherited node, use the parent class as constructor
             child_class = child.__class__
 
+            if data_id is None:
+                # Keep a custom data_id of the source (instead of re-calculating)
+                data_id = source_node._data_id
             node = child_class(
                 kind,
                 source_node.data,
@@ -425,6 +428,24 @@ class TypedNode(Node):
     # def remove_children(self, kind: Union[str, ANY_KIND]):
     #     """Remove all children of this node, making it a leaf node."""
     #     raise NotImplementedError
+
+    def _add_from(
+        self, other: Node, *, predicate: Optional[PredicateCallbackType] = None
+    ) -> None:
+        """Append copies of all source descendants to self (keeping the kinds)."""
+        if predicate:
+            return self._add_filtered(other, predicate)
+
+        assert not self._children
+        for child in other.children:
+            new_child = self.add_child(
+                child.data,
+                kind=getattr(child, "kind", None),
+                data_id=child._data_id,
+            )
+            if child.children:
+                new_child._add_from(child, predicate=None)
+        return
 
     def copy(self, *, add_self=True, predicate=None) -> TypedTree:
         """Return a new :class:`~nutree.typed_tree.TypedTree` instance from this branch.
